@@ -70,6 +70,8 @@ def worker_chunk(args, real_openql=False):
         desc = generator.generate(seed, profile, boot_id)
         desc["run_index"] = idx
         desc["master_seed"] = master
+        if real_openql:
+            desc["real_openql"] = True   # minimise / replay in the same kind of world
         try:
             r = engine.run_descriptor(desc)
         except Exception as e:  # harness problem: never a pass, never a violation
@@ -156,7 +158,7 @@ def worker_chunk(args, real_openql=False):
 def worker_minimise(args):
     """Minimise one violation in this (fresh) worker and return the minimised descriptor + finding."""
     prop, desc, finding, budget = args
-    _ensure_world(desc["boot"])
+    _ensure_world(desc["boot"], bool(desc.get("real_openql")))
     from sim import engine, shrink
     oracle = finding["oracle"]
     diag = finding.get("detail", {}).get("diag")
@@ -178,7 +180,7 @@ def worker_minimise(args):
 
 def worker_replay(args):
     prop, desc = args
-    _ensure_world(desc["boot"])
+    _ensure_world(desc["boot"], bool(desc.get("real_openql")))
     from sim import engine
     r = engine.run_descriptor(desc)
     return {"findings": [f for f in r["findings"] if prop in f["props"]], "digest": r["digest"],
